@@ -13,7 +13,9 @@ PROPS["C07"] = dict(
                "scenarios (all orders of {inbound accepted, outbound dialled, OPEN on inbound, OPEN on outbound} x both BGP-identifier orders, the variant without "
                "OPEN on the inbound connection, both OPENs written at one instant, repeated 16 times, and the steered variant in which gobgp's FSM goroutine is held at the yield point "
                "\"opensent\" (shared gate simOpenSentGate) until both OPENs are queued, so that gobgp's own collision code runs in either select branch, "
-               "repeated 16 times) complete it. Fault enumeration is the right "
+               "repeated 16 times) and 120 multi-session histories of one neighbour (the speaker's OPEN changes between sessions: Extended Message capability "
+               "on/off over 2 and 3 sessions x 5 ways of ending a session x oversize probe of 4097 or 65535 octets, hold time 9/30/90/3 s rotating; every session "
+               "is probed with well-formed UPDATEs of exactly 4096 octets and just above the 4096-octet limit, judged by what THIS session negotiated) complete it. Fault enumeration is the right "
                "level: the state machine is small, its faults are a finite alphabet, and virtual time makes timer instants exact.",
     level_note="The model is written from RFC 4271 (+ RFC 6608 FSM-error subcodes, RFC 4486/8203 Cease subcodes, RFC 6286 identifier rule); from gobgp it takes "
                "only the documented parameters the property leaves open (no Connect state, idle-hold 0 s / 5 s / 30 s after a reset, OpenSent hold 240 s, "
@@ -31,7 +33,8 @@ PROPS["C07"] = dict(
                     "sequences subsumed by a shorter one (counter sequences_subsumed_by_shorter); all 20 single-event scenarios on gobgp's outbound "
                     "connection; all 6 orders (+ the order without OPEN on the inbound connection) x 2 identifier orders of the four collision events. "
                     "Sampled: walks (quick 4,000, thorough 300,000); goroutine schedules of the simultaneous-OPEN collision scenarios (2 x 2 x 16 runs) and the select branch "
-                    "taken in the steered collision scenarios (2 x 2 x 16 runs, both branches ready).",
+                    "taken in the steered collision scenarios (2 x 2 x 16 runs, both branches ready). Also complete: the 12 on/off patterns of the Extended "
+                    "Message capability over 2 and 3 consecutive sessions x 5 session endings x 2 oversize lengths (multi-session histories).",
     assumptions=["a silent close is admissible where the RFCs say SHOULD or are silent: a refused / second inbound connection (optional Cease), a NOTIFICATION "
                  "received in OpenSent (FSM error or silent close), a valid second OPEN in OpenConfirm or Established, ShutdownPeer/ResetPeer while no "
                  "session is established (no-op)",
@@ -40,7 +43,7 @@ PROPS["C07"] = dict(
                  "prefix-limit overrun leaves the peer in admin state PFX_CT (gobgp's documented behaviour) until EnablePeer",
                  "UPDATE / ROUTE-REFRESH messages written by gobgp are not compared (C01 does that)",
                  "the global table is configured with two families (ipv4/ipv6 unicast) to keep a bubble cheap"],
-    must_count=["steps", "rib_listings", "transitions_observed", "cases_walk", "cases_active_peer", "collision_arose", "collision_avoided", "collision_inbound_silent", "collision_steered_gate_held",
+    must_count=["steps", "rib_listings", "transitions_observed", "cases_walk", "cases_active_peer", "collision_arose", "collision_avoided", "collision_inbound_silent", "collision_steered_gate_held", "cases_multi_session", "multi_oversize_accepted_when_negotiated", "multi_oversize_refused_when_not_negotiated", "multi_session_noext_after_ext", "multi_session_ext_after_noext", "multi_session_noext_after_noext", "multi_session_ext_after_ext",
                 "cases_exhaustive_active_len3", "cases_exhaustive_idle_len3", "cases_exhaustive_opensent_len3", "cases_exhaustive_openconfirm_len3",
                 "cases_exhaustive_established_len3",
                 "edge_idle->active", "edge_active->opensent", "edge_opensent->openconfirm", "edge_openconfirm->established", "edge_established->idle",
